@@ -160,14 +160,113 @@ func lostProps(fkey string) []string {
 var _ = token.NoPos
 
 func init() {
-	all := []string{"C03", "C10", "C14", "C17"}
+	all := []string{"C03", "C04", "C10", "C11", "C14", "C17"}
 	core.Register(&core.Rule{Name: "LOSTSTORE", Props: all,
 		Doc: "a field assigned on a value receiver is followed, on some path, by a use of that receiver copy (otherwise the assignment is lost: the With*/copy method does not install the value in what it returns)",
 		Run: func(c *core.Ctx) []ob {
 			out := scanLostStore(c)
+			out = append(out, scanLazyInit(c)...)
+			for _, o := range control(c, "LOSTSTORE", scanLazyInit, "(Thing).remember") {
+				out = append(out, withProps(o, all...))
+			}
 			for _, o := range control(c, "LOSTSTORE", scanLostStore, "(Thing).WithConf") {
 				out = append(out, withProps(o, all...))
 			}
 			return out
 		}})
+}
+
+// LAZYINIT — part of LOSTSTORE: lazy allocation on a value receiver.
+//
+// `if recv.f == nil { recv.f = make(...) }` in a method with a value receiver allocates the map/slice in the method's
+// private copy: the caller's object still holds nil, what the method stores into the fresh container is gone when it
+// returns, and the next reader of the field (another method of the caller's object) finds nothing. The container has
+// to be allocated by the constructors (then the value receiver shares it) or the method needs a pointer receiver.
+// Decided per occurrence: the store is lost unless the receiver copy itself is returned or its address escapes.
+func scanLazyInit(c *core.Ctx) []ob {
+	var out []ob
+	n := 0
+	c.FuncDecls(func(pk *packages.Package, file *ast.File, fd *ast.FuncDecl) {
+		if fd.Body == nil || fd.Recv == nil || fileIsTestSupport(c.Program, fd.Pos()) || inExamples(pk) {
+			return
+		}
+		info := pk.TypesInfo
+		_, ptrRecv := core.RecvNamed(info, fd)
+		recv := recvObj(info, fd)
+		if ptrRecv || recv == nil {
+			return
+		}
+		if _, isStruct := recv.Type().Underlying().(*types.Struct); !isStruct {
+			return
+		}
+		fkey := core.FuncKey(pk, fd)
+		// does the receiver copy escape (returned by value/address)? then the allocation travels with it
+		escapes := false
+		ast.Inspect(fd.Body, func(x ast.Node) bool {
+			switch v := x.(type) {
+			case *ast.ReturnStmt:
+				for _, r := range v.Results {
+					r = unparen(r)
+					if u, ok := r.(*ast.UnaryExpr); ok && u.Op == token.AND {
+						r = unparen(u.X)
+					}
+					if id, ok := r.(*ast.Ident); ok && info.Uses[id] == recv {
+						escapes = true
+					}
+				}
+			case *ast.UnaryExpr:
+				if v.Op == token.AND {
+					if id, ok := unparen(v.X).(*ast.Ident); ok && info.Uses[id] == recv {
+						escapes = true
+					}
+				}
+			}
+			return true
+		})
+		ast.Inspect(fd.Body, func(x ast.Node) bool {
+			is, ok := x.(*ast.IfStmt)
+			if !ok {
+				return true
+			}
+			be, ok := unparen(is.Cond).(*ast.BinaryExpr)
+			if !ok || be.Op != token.EQL || !isNilIdent(be.Y) {
+				return true
+			}
+			sel, ok := unparen(be.X).(*ast.SelectorExpr)
+			if !ok {
+				return true
+			}
+			id, ok := unparen(sel.X).(*ast.Ident)
+			if !ok || info.Uses[id] != recv {
+				return true
+			}
+			if s := info.Selections[sel]; s != nil && s.Indirect() {
+				return true // a field of an embedded pointer: shared storage
+			}
+			// the then-branch assigns the same field
+			assigns := false
+			for _, st := range is.Body.List {
+				if as, ok := st.(*ast.AssignStmt); ok {
+					for _, l := range as.Lhs {
+						if exprString(l) == exprString(sel) {
+							assigns = true
+						}
+					}
+				}
+			}
+			if !assigns {
+				return true
+			}
+			n++
+			key := fmt.Sprintf("LAZYINIT:%s#%s", fkey, sel.Sel.Name)
+			if escapes {
+				out = append(out, withProps(okOb("LOSTSTORE", key, c.Rel(is.Pos()), "the receiver copy is returned: the allocation travels with it", true), lostProps(fkey)...))
+			} else {
+				out = append(out, withProps(violOb("LOSTSTORE", key, c.Rel(is.Pos()), fmt.Sprintf("%s has a value receiver and allocates %s.%s when it is nil (%s): the allocation and everything stored into it stay in the method's private copy, the caller's object keeps a nil %s", fkey, recv.Name(), sel.Sel.Name, c.Rel(is.Pos()), sel.Sel.Name)), append(lostProps(fkey), "C04", "C11")...))
+			}
+			return true
+		})
+	})
+	c.Stats["lazyinit_sites"] = n
+	return out
 }
